@@ -2,6 +2,8 @@ package hlslx
 
 import (
 	"fmt"
+
+	"verif/harness/xrt"
 )
 
 // Decl is one declaration in the translation unit.
@@ -71,9 +73,13 @@ func (c *checker) push() *scope {
 	s := &scope{id: c.nscope, vars: map[string]*VarDecl{}, depth: d}
 	c.nscope++
 	c.scopes = append(c.scopes, s)
+	c.u.sev = append(c.u.sev, xrt.ScopeEv{Op: "open", Kind: "body"})
 	return s
 }
-func (c *checker) pop()        { c.scopes = c.scopes[:len(c.scopes)-1] }
+func (c *checker) pop() {
+	c.scopes = c.scopes[:len(c.scopes)-1]
+	c.u.sev = append(c.u.sev, xrt.ScopeEv{Op: "close"})
+}
 func (c *checker) top() *scope { return c.scopes[len(c.scopes)-1] }
 
 func (c *checker) lookupVar(name string) *VarDecl {
@@ -89,6 +95,7 @@ func (c *checker) addDecl(kind, name, typ string, pos Pos, parent int) int {
 	s := c.top()
 	id := len(c.u.decls)
 	c.u.decls = append(c.u.decls, Decl{ID: id, Kind: kind, Name: name, Type: typ, Line: pos.Line, Col: pos.Col, Depth: s.depth, Parent: parent, Scope: s.id})
+	c.u.sev = append(c.u.sev, xrt.ScopeEv{Op: "decl", Kind: kind, Name: name, Line: pos.Line, Col: pos.Col, Decl: id})
 	return id
 }
 
@@ -98,6 +105,7 @@ func (c *checker) addRef(kind, name string, pos Pos, decl int, builtin bool) *Re
 		fn = c.curFn.declID
 	}
 	c.u.refs = append(c.u.refs, Ref{Name: name, Kind: kind, Line: pos.Line, Col: pos.Col, Decl: decl, Builtin: builtin, Depth: c.top().depth, InFunc: fn})
+	c.u.sev = append(c.u.sev, xrt.ScopeEv{Op: "ref", Kind: kind, Name: name, Line: pos.Line, Col: pos.Col, Decl: decl, Builtin: builtin, Member: kind == "member"})
 	return &c.u.refs[len(c.u.refs)-1]
 }
 
@@ -422,6 +430,7 @@ func (c *checker) checkFunc(fn *FuncDecl) {
 	rt := c.resolveTypeSpec(fn.Ret)
 	fn.ret = c.wrapDims(rt, fn.RetDims, fn.Pos)
 	fn.declID = c.addDecl("function", fn.Name, fn.ret.String(), fn.Pos, -1)
+	fnEv := len(c.u.sev) - 1
 	if v := c.scopes[0].vars[fn.Name]; v != nil {
 		c.errorf(fn.Pos, "function '%s' redeclares a global variable", fn.Name)
 	}
@@ -431,6 +440,7 @@ func (c *checker) checkFunc(fn *FuncDecl) {
 	for _, p := range fn.Params {
 		c.declareVar(p, fn.declID)
 	}
+	c.u.sev[fnEv].Sig = "(" + paramTypeList(fn) + ")"
 	for _, o := range u.funcsByName[fn.Name] {
 		if sameParamTypes(o, fn) && o.Body != nil && fn.Body != nil {
 			c.errorf(fn.Pos, "redefinition of function '%s(%s)'", fn.Name, paramTypeList(fn))
@@ -807,6 +817,10 @@ func (u *Unit) Decls() []Decl { return append([]Decl(nil), u.decls...) }
 
 // Refs returns every identifier reference in source order.
 func (u *Unit) Refs() []Ref { return append([]Ref(nil), u.refs...) }
+
+// ScopeEvents is the declaration / reference event stream recorded by the
+// checker (consumed by spec/Scopes.tla, property C16).
+func (u *Unit) ScopeEvents() []xrt.ScopeEv { return append([]xrt.ScopeEv(nil), u.sev...) }
 
 // StaticErrors returns the static (compile-time) errors found while resolving
 // names and types: undeclared identifiers, unknown types, redefinitions,
